@@ -127,7 +127,7 @@ func mtype(rc *RunCfg) string {
 // see it (a Matcher-type matcher is never shown an entry whose (pre-)certificate does not parse at all; one that parses
 // with non-fatal errors is matched like any other).
 func selected(rc *RunCfg, e *Entry) bool {
-	return wants(rc, e) && (mtype(rc) == "leaf" || e.Class != "fatal")
+	return wants(rc, e) && (mtype(rc) == "leaf" || !isFatalClass(e.Class))
 }
 
 func matcherOf(rc *RunCfg) interface{} {
@@ -385,7 +385,7 @@ func replayOf(rc *RunCfg, f *Fake) any {
 	if len(evs) > 400 {
 		evs = evs[:400]
 	}
-	r := map[string]any{"config": rc, "run": f.run, "trace": evs}
+	r := map[string]any{"config": rc, "run": f.run, "trace": evs, "entries": f.w.Desc()}
 	if f.ws != nil {
 		r["world"] = f.ws
 	}
@@ -776,6 +776,8 @@ type Case struct {
 	Config RunCfg
 	Run    *Run
 	World  *WorldSpec // the specification's log content (cases of ScannerFanout.tla)
+	// Entries: the log content entry by entry (kind, family, concrete defects); when present the log is rebuilt from it
+	Entries []EntryDesc
 }
 
 // TestOne re-executes one recorded case: first with its own salt, then with other latencies.
@@ -795,11 +797,15 @@ func TestOne(t *testing.T) {
 		}
 	}()
 	w := NewWorld(vh.Rand(16))
-	if cs[0].Config.SpecWorld {
+	if len(cs[0].Entries) > 0 {
+		if w, err = NewWorldFromDesc(cs[0].Entries); err != nil {
+			t.Fatal(err)
+		}
+	} else if cs[0].Config.SpecWorld {
 		if cs[0].World == nil {
 			t.Fatal("the case runs against the specification's log but carries no WORLD record")
 		}
-		if w, err = NewWorldFrom(cs[0].World); err != nil {
+		if w, err = NewWorldFrom(cs[0].World, 0); err != nil {
 			t.Fatal(err)
 		}
 	}
@@ -1011,19 +1017,23 @@ func TestFanout(t *testing.T) {
 			t.Fatal(err)
 		}
 	}()
-	w, err := NewWorldFrom(&worlds[0])
-	if err != nil {
-		t.Fatal(err)
-	}
-	if err := w.CheckClasses(); err != nil {
-		t.Fatal(err)
-	}
+	// the classes of the WORLD record are materialized anew (other concrete defects of the catalogue) every 25 cases
+	var w *World
+	pick0 := vh.Rand(1616).Intn(1000)
 	rec, err := vh.NewRecorder("traces.ndjson")
 	if err != nil {
 		t.Fatal(err)
 	}
 	traceEvery := vh.EnvInt("VERIF_FANOUT_TRACE_EVERY", 5)
 	for idx := range cases {
+		if idx%25 == 0 {
+			if w, err = NewWorldFrom(&worlds[0], pick0+idx/25*7); err != nil {
+				t.Fatal(err)
+			}
+			if err := w.CheckClasses(); err != nil {
+				t.Fatal(err)
+			}
+		}
 		fc := &cases[idx]
 		m, ok := fanMatcher[fc.C.Matcher]
 		if !ok || fc.C.Size > MaxN {
